@@ -1,4 +1,62 @@
-(* C20 — placeholder (extended below). *)
-From Astro Require Import Base Text FormatModel.
-Theorem C20_placeholder : parse_format_string [] = []. Proof. exact eq_refl. Qed.
-Print Assumptions C20_placeholder.
+(* C20 — default text forms (Display, FromStr, serde) name the value they came from.
+   Model: Display = format with "yyyy/MM/dd", "HH:mm:ss", "yyyy/MM/dd HH:mm:ss" (ParseModel.date_display ...);
+   Serialize = format with "yyyy-MM-dd", "HH:mm:ss", format_rfc3339(Seconds); Deserialize = FromStr =
+   parse with "yyyy-MM-dd" / "HH:mm:ss" / parse_rfc3339, an Err mapped to a serde error.
+   date_text sep d = sign-and-4-digit year, sep, 2-digit month, sep, 2-digit day of the date of day number d;
+   clock_text n    = 2-digit hour ":" 2-digit minute ":" 2-digit second of the time of day n
+   (zero_padded n k is the k-digit decimal expansion: PadProofs.zero_padded_dec).
+   NOT in the model: the serde framework itself (that it hands the serializer's string to the deserializer unchanged);
+   the harness runs the real serde_json round trip. *)
+From Astro Require Import Base Text CalSpec DateModel TimeModel ApiModel InstantSpec FormatModel ParseModel
+  ClockProofs TextProofs PadProofs RfcSpec RfcProofs FieldProofs.
+
+(* Display: the documented fixed patterns applied to the value read in its offset *)
+Theorem C20_display_date : forall d, date_display d = Ok (date_text 47 d).
+Proof. exact date_display_text. Qed.
+Theorem C20_display_time : forall t, time_display t = Ok (clock_text (add_offset_to_nanos (tm_nanos t) (tm_off t))).
+Proof. exact time_display_text. Qed.
+Theorem C20_display_datetime : forall v, Inv_dt v /\ inst_in_range (local_instant v) ->
+  dt_display v = Ok ((date_text 47 (local_instant v / D) ++ [32] ++ clock_text (local_instant v mod D)) ++ []).
+Proof. exact dt_display_text. Qed.
+
+(* serde: deserializing what was serialized *)
+(* every Date in range (all eras, years beyond 9999 and negative years included) comes back as itself *)
+Theorem C20_serde_date : forall now d, in_i32 d -> exists s, date_serialize d = Ok s /\ date_from_str now s = Ok d.
+Proof. exact date_serde_roundtrip. Qed.
+(* every Time comes back showing the same HH:mm:ss: its local time of day truncated to the second, offset dropped *)
+Theorem C20_serde_time : forall t, exists s, time_serialize t = Ok s /\
+  time_from_str s = Ok (mkTM (add_offset_to_nanos (tm_nanos t) (tm_off t) / NANOS_PER_SEC * NANOS_PER_SEC) 0).
+Proof. exact time_serde_roundtrip. Qed.
+(* every DateTime in local years 0001-9999 with a whole-minute offset comes back with the same offset and the same
+   instant to the second *)
+Theorem C20_serde_datetime : forall v, Inv_dt v /\ inst_in_range (local_instant v) -> dt_off v mod 60 = 0 ->
+  (let '(y, _, _) := days_to_date (local_instant v / D) in 1 <= y <= 9999) ->
+  exists s v', dt_serialize v = Ok s /\ dt_from_str s = Ok v' /\ dt_off v' = dt_off v /\
+    instant v' = local_instant v / NANOS_PER_SEC * NANOS_PER_SEC - dt_off v * NANOS_PER_SEC /\
+    (Inv_dt v' /\ inst_in_range (local_instant v')).
+Proof. intros v Hv Hm Hy. exact (rfc_roundtrip v 0 Hv (or_introl eq_refl) Hm Hy). Qed.
+(* malformed strings: FromStr (hence Deserialize) returns an error or a valid value, never a panic *)
+Theorem C20_from_str_total : forall now s,
+  (date_from_str now s <> Panic /\ forall d, date_from_str now s = Ok d -> in_i32 d) /\
+  (time_from_str s <> Panic /\ forall t, time_from_str s = Ok t -> Inv_tm t) /\
+  (dt_from_str s <> Panic /\ forall v, dt_from_str s = Ok v -> Inv_dt v /\ inst_in_range (local_instant v)).
+Proof.
+  intros now s.
+  exact (conj (conj (date_parse_np now s P_DATE_ISO) (date_parse_valid now s P_DATE_ISO))
+        (conj (conj (time_parse_np s P_TIME) (time_parse_valid s P_TIME)) (rfc_parse_total s))).
+Qed.
+
+(* non-vacuity: -0005-03-15 (day -1753), a year beyond 9999, and a time with an offset *)
+Example C20_examples :
+  date_text 45 (-1753) = [45;48;48;48;53;45;48;51;45;49;53] /\ date_from_str 2024 [45;48;48;48;53;45;48;51;45;49;53] = Ok (-1753) /\
+  date_text 47 4000000 = [49;48;57;53;50;47;48;56;47;49;56] /\ in_i32 4000000 /\
+  clock_text 3723000000000 = [48;49;58;48;50;58;48;51].
+Proof. repeat split; try (vm_compute; reflexivity); unfold I32_MIN, I32_MAX; lia. Qed.
+
+Print Assumptions C20_display_date.
+Print Assumptions C20_display_time.
+Print Assumptions C20_display_datetime.
+Print Assumptions C20_serde_date.
+Print Assumptions C20_serde_time.
+Print Assumptions C20_serde_datetime.
+Print Assumptions C20_from_str_total.
